@@ -18,39 +18,46 @@ VARIABLES mode, hist
 mcvars == <<base, objs, cells, roots, memo, evals, out, mode, hist>>
 
 \* ------------------------------------------------------------------ universes
-AllSigs == {s \in [npos : 0..4, ndef : 0..4, varargs : BOOLEAN, varkw : BOOLEAN] : s.ndef <= s.npos}
-S(np, nd, va, vk) == [npos |-> np, ndef |-> nd, varargs |-> va, varkw |-> vk]
+PlainSigs == {s \in [npos : 0..4, ndef : 0..4, varargs : BOOLEAN, varkw : BOOLEAN, alt : {FALSE}] : s.ndef <= s.npos}
+\* the twin of every signature with defaults: same code, other default values (a function factory, lambdas in a loop)
+AltSigs   == {[s EXCEPT !.alt = TRUE] : s \in {z \in PlainSigs : z.ndef >= 1}}
+AllSigs   == PlainSigs \cup AltSigs
+S(np, nd, va, vk) == [npos |-> np, ndef |-> nd, varargs |-> va, varkw |-> vk, alt |-> FALSE]
 \* base functions of the heap histories:  f(a, b='db')   f(a, *args, **kw)   f(a='da', b='db', **kw)
 \*                                        f( *args )      f(a, b, c='dc')
 BaseSigs == {S(2, 1, FALSE, FALSE), S(1, 0, TRUE, TRUE), S(2, 2, FALSE, TRUE)}
             \cup (IF Wide THEN {S(0, 0, TRUE, FALSE), S(3, 1, FALSE, FALSE)} ELSE {})
 
 \* abstract call: k positional arguments, the set of names passed by keyword, and whether the
-\* first argument carries the value that makes the base function raise.  The value of an argument
+\* first argument carries the value that makes the base function raise ("bad") or return None ("quiet").  The value of an argument
 \* belongs to the parameter, not to the way it is passed: all valid splits of one argument set
 \* between positional and keyword passing must give one binding (SplitIndependent).
 AllNames  == ParamNames \o <<"x", "y">>
 NameValOf == [a |-> VInt(1), b |-> VInt(2), c |-> VInt(3), d |-> VInt(4), x |-> VStr("kx"), y |-> VStr("ky")]
 Tup(f) == <<>> \o f
+MarkVal(m) == IF m = "bad" THEN Bad ELSE Quiet
 CC(ac) == LET names == SelectSeq(AllNames, LAMBDA n : n \in ac.kw) IN
-          [pos |-> Tup([i \in 1..ac.k |-> IF ac.bad /\ i = 1 THEN Bad ELSE VInt(i)]),
-           kw  |-> Tup([j \in 1..Len(names) |-> <<names[j], IF ac.bad /\ ac.k = 0 /\ j = 1 THEN Bad ELSE NameValOf[names[j]]>>])]
-AbsCalls(sig) == {ac \in [k : 0..(sig.npos + 2), kw : SUBSET Range(AllNames), bad : BOOLEAN] :
-                    /\ ac.bad => (ac.k > 0 \/ ac.kw # {})
+          [pos |-> Tup([i \in 1..ac.k |-> IF ac.mark # "ok" /\ i = 1 THEN MarkVal(ac.mark) ELSE VInt(i)]),
+           kw  |-> Tup([j \in 1..Len(names) |-> <<names[j], IF ac.mark # "ok" /\ ac.k = 0 /\ j = 1 THEN MarkVal(ac.mark) ELSE NameValOf[names[j]]>>])]
+\* the twins are called so that their defaults show: positional arguments only
+AbsCalls(sig) == {ac \in [k : 0..(sig.npos + 2), kw : SUBSET Range(AllNames), mark : {"ok", "bad"}] :
+                    /\ ac.mark # "ok" => (ac.k > 0 \/ ac.kw # {})
+                    /\ sig.alt => (ac.kw = {} /\ ac.mark = "ok" /\ ac.k <= sig.npos)
                     /\ Valid(sig, DropUndeclared(sig, CC(ac)))}       \* valid for f, or for kwargs_support(f)
-MenuFor(sig) == {CC(ac) : ac \in {z \in [k : 0..2, kw : SUBSET {"a", "b", "x"}, bad : BOOLEAN] :
-                                     /\ z.bad => (z.k > 0 \/ z.kw # {})
+MenuFor(sig) == {CC(ac) : ac \in {z \in [k : 0..2, kw : SUBSET {"a", "b", "x"}, mark : {"ok", "bad", "quiet"}] :
+                                     /\ z.mark # "ok" => (z.k > 0 \/ z.kw # {})
+                                     /\ (z.mark = "quiet" => z.kw \subseteq {"a"})
                                      /\ Valid(sig, DropUndeclared(sig, CC(z)))}}
 \* constant-level tables (TLC evaluates them once)
 AbsCallsOf == [sig \in AllSigs |-> AbsCalls(sig)]
 MenuOf     == [sig \in BaseSigs |-> MenuFor(sig)]
 Menu(sig)  == MenuOf[sig]
 
-\* keys of the memo machine on f(a, b='db'): f(1) f(a=1) f(a=1, b=2) f(7) | f(1, 2) f(1, b=2)
+\* keys of the memo machine on f(a, b='db'): f(1) f(a=1) f(a=1, b=2) f(7) f('quiet') -> None | f(1, 2) f(1, b=2)
 MemoSig  == S(2, 1, FALSE, FALSE)
 Key(ps, ks) == [pos |-> ps, kw |-> ks]
 MemoKeys == {Key(<<VInt(1)>>, <<>>), Key(<<>>, <<<<"a", VInt(1)>>>>), Key(<<>>, <<<<"a", VInt(1)>>, <<"b", VInt(2)>>>>),
-             Key(<<VInt(7)>>, <<>>)}
+             Key(<<VInt(7)>>, <<>>), Key(<<Quiet>>, <<>>)}
             \cup (IF Wide THEN {Key(<<VInt(1), VInt(2)>>, <<>>), Key(<<VInt(1)>>, <<<<"b", VInt(2)>>>>)} ELSE {})
 
 SeqsUpTo(Z, n) == UNION {[1..m -> Z] : m \in 0..n}
@@ -84,7 +91,7 @@ Next == BindStep \/ WrapStep \/ CachedStep \/ ChainStep
 
 \* ------------------------------------------------------------------ generator (S2C)
 SingleOuts(sig, cc) ==
-    LET ks == SelectSeq(KindSeq, LAMBDA kind : ValidFor(sig, <<LayerOf(kind)>>, cc)) IN
+    LET ks == SelectSeq(BindKindSeq, LAMBDA kind : ValidFor(sig, <<LayerOf(kind)>>, cc)) IN
     Tup([i \in 1..Len(ks) |-> <<ks[i], LawOutcome(sig, <<LayerOf(ks[i])>>, cc)>>])
 GenBind == mode = "bind" /\ out[1] = "idle" /\ \E ac \in AbsCallsOf[base] : LET cc == CC(ac) IN
     /\ Call(0, cc) /\ UNCHANGED <<mode, hist>>
@@ -117,11 +124,16 @@ SplitIndependent(sig, ac) ==
         Valid(sig, CC(moved)) /\ Bind(sig, CC(moved)) = Bind(sig, CC(ac))
 \* (checked on the call just made: out = <<"ret", 0, cc, outcome>>)
 BindLaws == (mode = "bind" /\ out[1] = "ret") =>
-                LET ac == [k |-> Len(out[3].pos), kw |-> KwNames(out[3]), bad |-> HasBad(out[3])] IN
+                LET ac == [k |-> Len(out[3].pos), kw |-> KwNames(out[3]), mark |-> IF HasBad(out[3]) THEN "bad" ELSE "ok"] IN
                 CC(ac) = out[3] /\ BindConserves(base, out[3]) /\ SplitIndependent(base, ac)
 \* the last public call: a valid call on the plain function returns its bindings (or raises on Bad)
 BindTotal == (mode = "bind" /\ out[1] = "ret" /\ Valid(base, out[3])) =>
                 out[4] = (IF HasBad(out[3]) THEN Raises("ValueError") ELSE Bind(base, out[3]))
+\* two functions with one code object report their own defaults and bind them
+TwinsDiffer == (mode = "bind" /\ base.alt) =>
+                  LET twin == [base EXCEPT !.alt = FALSE] IN
+                  /\ ArgSpec(base).defaults # ArgSpec(twin).defaults /\ ArgSpec(base).args = ArgSpec(twin).args
+                  /\ (out[1] = "ret" /\ Len(out[3].pos) < base.npos) => out[4] # Bind(twin, out[3])
 \* (b) calls on an object with chain Newest over the base function
 Newest == objs[1]
 ChainState == mode = "chain" /\ out[1] = "table"
@@ -130,13 +142,13 @@ Transparent == ChainState => \A cc \in Menu(base) : ValidFor(base, Newest, cc) =
                                 ChainEval(base, Newest, cc) = LawOutcome(base, Newest, cc)
 \* ... and where no try layer and no kwargs_support is involved it is literally what f returns
 ReturnsWhatFReturns == ChainState => \A cc \in Menu(base) :
-                          (Valid(base, cc) /\ ~HasBad(cc)) => ChainEval(base, Newest, cc) = Bind(base, cc)
+                          (Valid(base, cc) /\ ~HasBad(cc)) => ChainEval(base, Newest, cc) = (IF HasQuiet(cc) THEN None ELSE Bind(base, cc))
 FallbackIffRaises == ChainState => \A cc \in Menu(base) : (ValidFor(base, Newest, cc) /\ TryIdx(Newest) # {}) =>
                           LET eff == Effective(base, Newest, cc) IN
                           ChainEval(base, Newest, cc) = (IF HasBad(eff) THEN Fallback(Newest[Max(TryIdx(Newest))], base, cc)
-                                                         ELSE Bind(base, eff))
+                                                         ELSE IF HasQuiet(eff) THEN None ELSE Bind(base, eff))
 DropsExactlyUndeclared == ChainState => \A cc \in Menu(base) :
-                          (HasCls(Newest, "kwargs_support") /\ ValidFor(base, Newest, cc) /\ ~HasBad(cc)) =>
+                          (HasCls(Newest, "kwargs_support") /\ ValidFor(base, Newest, cc) /\ ~HasBad(cc) /\ ~HasQuiet(cc)) =>
                               ChainEval(base, Newest, cc) =
                                   Bind(base, IF base.varkw THEN cc ELSE [cc EXCEPT !.kw = SelectSeq(@, LAMBDA p : p[1] \in Params(base))])
 \* wrapping twice equals wrapping once, directly and through a chain of other decorators
